@@ -165,17 +165,35 @@ Definition transposeb (g gt : graph) : bool :=
   wfb g n && wfb gt n &&
   forallb (fun u => forallb (fun v => Bool.eqb (memb u (succs gt v)) (memb v (succs g u))) (seq 0 n)) (seq 0 n).
 
-(** DEFECT (refutation): the concrete model of [iterate] (flags decided as the code does)
-    reaches an iteration that is local but not systolic; the counters are right but the
-    neighbourhood function it records is not the sum of the sizes. *)
+(** REPAIRED DEFECT (refutation of the PRE-repair behaviour).  Before its repair the code
+    set [ic.local = ic.pre_local] (model: [hb_run_prefix], i.e. [cstep_gen false]); the
+    code now sets [ic.local = ic.pre_local && ic.systolic] (model: [hb_run]).  With the old
+    rule the concrete model of [iterate] (flags decided as the code does) reaches an
+    iteration that is local but not systolic; the counters are right but the neighbourhood
+    function it records is not the sum of the sizes.  The statement is about the old rule
+    only; for the code as it is now the opposite is proved ([S_nf_exact]). *)
 Definition S_nf_refuted : Prop :=
   exists (g gt : graph) (c0 : list (list bool)),
     transposeb g gt = true /\ length g = length c0 /\
-    let states := hb_run (list bool) bits_join bits_eqb [] bits_size false true g gt (length c0) c0 in
+    let states := hb_run_prefix (list bool) bits_join bits_eqb [] bits_size false true g gt (length c0) c0 in
     let final := last states (init_state (list bool) [] c0) in
     a_curr _ (c_arr _ final) = sync_iter (list bool) bits_join [] g (length states) c0 /\
     existsb (fun s => c_local _ s && negb (c_sys _ s)) states = true /\
     hd 0%Z (c_nf _ final) <> sumZ (map bits_size (a_curr _ (c_arr _ final))).
+
+(** ... and on the same witness the repaired rule records the exact value (so the witness
+    separates the two rules, and no iteration is local without being systolic). *)
+Definition S_nf_witness_repaired : Prop :=
+  exists (g gt : graph) (c0 : list (list bool)),
+    transposeb g gt = true /\ length g = length c0 /\
+    (let states := hb_run_prefix (list bool) bits_join bits_eqb [] bits_size false true g gt (length c0) c0 in
+     let final := last states (init_state (list bool) [] c0) in
+     hd 0%Z (c_nf _ final) <> sumZ (map bits_size (a_curr _ (c_arr _ final)))) /\
+    (let states := hb_run (list bool) bits_join bits_eqb [] bits_size false true g gt (length c0) c0 in
+     let final := last states (init_state (list bool) [] c0) in
+     existsb (fun s => c_prelocal _ s) states = true /\
+     existsb (fun s => c_local _ s && negb (c_sys _ s)) states = false /\
+     hd 0%Z (c_nf _ final) = sumZ (map bits_size (a_curr _ (c_arr _ final)))).
 
 (** The concrete bookkeeping ([curr_modified], [next_modified] and its partial clearing,
     [must_be_checked] / [next_must_be_checked] and their swap, the local check list built
@@ -191,3 +209,55 @@ Definition S_concrete_full : Prop :=
     let states := hb_run L join eqb dflt size ext has_tr g gt ub c0 in
     forall s, In s states ->
       a_curr L (c_arr L s) = sync_iter L join dflt g (c_iter L s) c0.
+
+(** the neighbourhood function of the synchronous iteration at round [t]: the sum over all
+    nodes of the size of the counter *)
+Definition nf_at {L} (join : L -> L -> L) (dflt : L) (size : L -> Z) (g : graph) (c0 : list L) (t : nat) : Z :=
+  sumZ (map size (sync_iter L join dflt g t c0)).
+
+(** The neighbourhood function of the repaired code is exact (with an exact [size] in
+    place of the floating-point estimate): in the concrete model of [iterate]/[run] as the
+    code is now, with the modes decided as the code decides them, on either store, with or
+    without transpose, for every iteration bound and ANY initial counters,
+
+    - after every iteration the value [self.last] (the value of this iteration BEFORE the
+      monotone clamp) is the sum over all nodes of the size of the counter of round
+      [c_iter] of the synchronous iteration: the scan of a standard iteration and the
+      systolic compensation [last + sum over modified v of (size (new v) - size (old v))]
+      (in systolic, local and pre-local iterations) are exact.  No hypothesis on [size].
+
+    - if moreover [size] is monotone and the initial counters have total size [n] (what
+      [init] records as the first entry), the clamp is the identity and the recorded
+      sequence [neighborhood_function] is exactly [nf_at 0, nf_at 1, ..., nf_at c_iter]. *)
+Definition S_nf_exact : Prop :=
+  forall (L : Type) (join : L -> L -> L) (eqb : L -> L -> bool) (dflt : L) (size : L -> Z)
+         (ext has_tr : bool) (g gt : graph) (ub : nat) (c0 : list L),
+    semilattice join -> eqb_spec eqb -> wf_graph g (length c0) -> (has_tr = true -> is_transpose g gt) ->
+    let states := hb_run L join eqb dflt size ext has_tr g gt ub c0 in
+    forall s, In s states ->
+      c_last L s = nf_at join dflt size g c0 (c_iter L s) /\
+      c_last L s = sumZ (map size (a_curr L (c_arr L s))) /\
+      ((forall a b, join a b = b -> (size a <= size b)%Z) ->
+       sumZ (map size c0) = Z.of_nat (length c0) ->
+       rev (c_nf L s) = map (nf_at join dflt size g c0) (seq 0 (S (c_iter L s)))).
+
+(** Instance without hypotheses on [size]: node sets as bit vectors with their exact
+    cardinality, singletons as initial counters.  The recorded neighbourhood function is
+    the exact one: entry [t] is the number of pairs (v, w) with w within distance t of v
+    (by [S_ball_exact] the counter of v at round t is the ball of radius t around v). *)
+Definition S_nf_exact_bits : Prop :=
+  forall (ext has_tr : bool) (g gt : graph) (n ub : nat),
+    wf_graph g n -> (has_tr = true -> is_transpose g gt) ->
+    let c0 := singletons n in
+    let states := hb_run (list bool) bits_join bits_eqb [] bits_size ext has_tr g gt ub c0 in
+    forall s, In s states ->
+      c_last _ s = nf_at bits_join [] bits_size g c0 (c_iter _ s) /\
+      hd 0%Z (c_nf _ s) = nf_at bits_join [] bits_size g c0 (c_iter _ s) /\
+      rev (c_nf _ s) = map (nf_at bits_join [] bits_size g c0) (seq 0 (S (c_iter _ s))).
+
+(** The repaired code never runs an iteration that is local but not systolic. *)
+Definition S_local_systolic : Prop :=
+  forall (L : Type) (join : L -> L -> L) (eqb : L -> L -> bool) (dflt : L) (size : L -> Z)
+         (ext has_tr : bool) (g gt : graph) (ub : nat) (c0 : list L),
+    forall s, In s (hb_run L join eqb dflt size ext has_tr g gt ub c0) ->
+      c_local L s = true -> c_sys L s = true.
